@@ -283,6 +283,9 @@ func DefaultConsFamilies(quick bool, byzantine bool) ConsFamilies {
 			{W: WV(1, 1, 1), Epoch: 1, R: 7, Dev: 1},
 			{W: WV(2, 1, 1), Epoch: 1, R: 7, Dev: 1, Lags: true, MaxLag: 3, Fork: true}, // rich in weighted ties / split votes
 			{W: WV(1, 1, 1, 1), Epoch: 1, R: 7, Dev: 2, DevRounds: 3},                   // measured: contains DAGs whose blocks depend on the tie rule
+			// an early lag and then enough rounds to decide the frames the returning (frame-jumping) root belongs to
+			{W: WV(1, 1, 1, 1), Epoch: 1, R: 12, Dev: 1, Lags: true, MaxLag: 4, DevRounds: 3},
+			{W: WV(1, 1, 1, 1), Epoch: 1, R: 12, Dev: 1, Lags: true, MaxLag: 4, DevRounds: 3, Sequential: true},
 		}
 		if byzantine {
 			all(WV(1, 1, 1), 5, 2, false)
@@ -310,6 +313,10 @@ func DefaultConsFamilies(quick bool, byzantine bool) ConsFamilies {
 			{W: WV(2, 1, 1), Epoch: 1, R: 7, Dev: 2, Lags: true, MaxLag: 3, Fork: true},
 			{W: WV(1, 1, 1, 1), Epoch: 1, R: 7, Dev: 2},
 			{W: WV(1, 2, 3, 4), Epoch: 1, R: 7, Dev: 2},
+			// a lagging validator (frame-jumping root) with vote-splitting drops around it, enough rounds to decide
+			{W: WV(1, 1, 1, 1), Epoch: 1, R: 12, Dev: 2, Lags: true, MaxLag: 4, DevRounds: 5, LagRounds: 3, RequireLag: true, DropOnly: true, Sequential: true},
+			{W: WV(1, 1, 1, 1), Epoch: 1, R: 12, Dev: 2, Lags: true, MaxLag: 4, DevRounds: 5, LagRounds: 3, RequireLag: true, DropOnly: true},
+			{W: WV(1, 1, 1, 1), Epoch: 1, R: 11, Dev: 3, Lags: true, MaxLag: 3, DevRounds: 4, LagRounds: 2, RequireLag: true, DropOnly: true, Sequential: true},
 		}
 		if byzantine {
 			all(WV(1, 1, 1), 6, 2, false)
